@@ -20,7 +20,7 @@ func init() {
 			"R05-convert — no panic instruction is reachable inside PCall's recover arms, foreign panics are converted to ApiErrorPanic, threadRun re-panics only when there is no parent thread, the deferred recover is installed before the call, and DoString/DoFile/GPCall/protected CallByParam reach execution only through PCall; R05-raise — raiseError/Error reach the panic through LState.Panic after pushing the error object, and every Lua-level error entry (error, assert) goes through them; R05-handlerarm — inside PCall's recovery closure every call that can itself raise a Lua error (pushing the handler can overflow the registry, the handler can fail) runs after the inner recover has been deferred, so a second failure is still delivered to this protected call; R05-tracesafe — the traceback code (stackTrace and its static callees in the package) runs inside PCall's recovery closure but outside its inner recover, so a Go run-time panic there leaves PCall: every slice/string index in it is guarded by a length test on the path (or listed with the invariant that bounds it); R17-where shared — the position prefix is read at Pc-1 only when Pc > 0 (an error raised before a frame executed anything must not index -1 and escape as a Go panic). " +
 			"NOT decided: 'delivered exactly once', side-effect prefix, later behaviour — trace properties of executions.",
 		Trusted: []string{"a deferred closure runs on every exit of its function (Go semantics)"},
-		Rules:   []func(*Ctx){ruleRaiseGuardUnconditional, ruleHandlerHasFrames, ruleYieldRoomForOwnConvention, ruleInlineCopies, ruleRaisedValueFits, ruleProtectedCallConsultsContext, ruleCountersSurviveErrors, ruleRestore, ruleConvert, ruleRaise, ruleClose, ruleWhere, ruleHandlerArm, ruleTraceSafe, ruleRaiseOnOwnState, ruleProtectedPreparation, ruleRaiseErrorFormats, ruleAbsoluteTopRestoredAbsolutely},
+		Rules:   []func(*Ctx){ruleXpcallCountsFromItsTop, ruleSetSpAdjustsBeforeFreeing, ruleHandlerFramesFromTheFailedCall, ruleRaiseGuardUnconditional, ruleHandlerHasFrames, ruleYieldRoomForOwnConvention, ruleInlineCopies, ruleRaisedValueFits, ruleProtectedCallConsultsContext, ruleCountersSurviveErrors, ruleRestore, ruleConvert, ruleRaise, ruleClose, ruleWhere, ruleHandlerArm, ruleTraceSafe, ruleRaiseOnOwnState, ruleProtectedPreparation, ruleRaiseErrorFormats, ruleAbsoluteTopRestoredAbsolutely},
 	})
 }
 
